@@ -42,7 +42,7 @@ ASSUMPTIONS = [
     "one representative shape tuple per class (D=2, R<=2) and one value index + the VERIF_SEED-indexed one; program depth bounded (see coverage.bounds)",
 ]
 BOUNDS = {
-    "quick": dict(D=2, depth_all_readouts=0, depth_default_readout=1, depth_reduced=2, hetero_links=["Exp", "Heaviside"], vi=[0]),
+    "quick": dict(D=2, depth_all_readouts=0, depth_default_readout=1, depth_reduced=2, hetero_links=["Exp", "CoshM1", "Heaviside"], vi=[0]),
     "thorough": dict(D=2, depth_all_readouts=1, depth_default_readout=2, depth_reduced=3, hetero_links=["Exp", "CoshM1", "Heaviside", "ReLU"], vi=[0, 100]),
 }
 BUDGET = {"quick": 1200, "thorough": 10800}
@@ -87,17 +87,23 @@ def R1(a):
     return a[None]
 
 
+def _mdiag(d):
+    """Diagonal matrix built MULTIPLICATIVELY (as the library itself builds its diagonal precisions): the off-diagonal
+    zeros are products with the identity, so a reverse-mode pass through 1/A style shortcuts is exercised."""
+    return jnp.exp(d)[:, None] * jnp.eye(d.shape[0])
+
+
 ROOTS = {
     "GaussianMeasure": ("m", lambda P: measure.GaussianMeasure(Lambda=R1(spd(P["B0"])), nu=R1(P["v0"]), ln_beta=R1(P["c0"]))),
     "GaussianMeasure.R2": ("m", lambda P: measure.GaussianMeasure(Lambda=jnp.stack([spd(P["B0"]), spd(P["B1"])]), nu=jnp.stack([P["v0"], P["v1"]]), ln_beta=jnp.stack([P["c0"], P["c1"]]))),
-    "GaussianDiagMeasure": ("m", lambda P: measure.GaussianDiagMeasure(Lambda=R1(jnp.diag(jnp.exp(P["d0"]))), nu=R1(P["v0"]), ln_beta=R1(P["c0"]))),
+    "GaussianDiagMeasure": ("m", lambda P: measure.GaussianDiagMeasure(Lambda=R1(_mdiag(P["d0"])), nu=R1(P["v0"]), ln_beta=R1(P["c0"]))),
     "GaussianPDF": ("p", lambda P: pdf.GaussianPDF(Sigma=R1(spd(P["B0"])), mu=R1(P["v0"]))),
     "GaussianPDF.R2": ("p", lambda P: pdf.GaussianPDF(Sigma=jnp.stack([spd(P["B0"]), spd(P["B1"])]), mu=jnp.stack([P["v0"], P["v1"]]))),
-    "GaussianDiagPDF": ("p", lambda P: pdf.GaussianDiagPDF(Sigma=R1(jnp.diag(jnp.exp(P["d0"]))), mu=R1(P["v0"]))),
+    "GaussianDiagPDF": ("p", lambda P: pdf.GaussianDiagPDF(Sigma=R1(_mdiag(P["d0"])), mu=R1(P["v0"]))),
     "ConditionalGaussianPDF": ("c", lambda P: conditional.ConditionalGaussianPDF(M=R1(P["M1"]), b=R1(P["b1"]), Sigma=R1(spd(P["B2"])))),
-    "ConditionalGaussianDiagPDF": ("c", lambda P: conditional.ConditionalGaussianDiagPDF(M=R1(P["M1"]), b=R1(P["b1"]), Sigma=R1(jnp.diag(jnp.exp(P["d2"]))))),
+    "ConditionalGaussianDiagPDF": ("c", lambda P: conditional.ConditionalGaussianDiagPDF(M=R1(P["M1"]), b=R1(P["b1"]), Sigma=R1(_mdiag(P["d2"])))),
     "ConditionalIdentityGaussianPDF": ("c", lambda P: conditional.ConditionalIdentityGaussianPDF(Sigma=R1(spd(P["B2"])))),
-    "ConditionalIdentityDiagGaussianPDF": ("c", lambda P: conditional.ConditionalIdentityDiagGaussianPDF(Sigma=R1(jnp.diag(jnp.exp(P["d2"]))))),
+    "ConditionalIdentityDiagGaussianPDF": ("c", lambda P: conditional.ConditionalIdentityDiagGaussianPDF(Sigma=R1(_mdiag(P["d2"])))),
     "NNControlGaussianConditional": ("cu", lambda P: conditional.NNControlGaussianConditional(Sigma=R1(spd(P["B2"])), num_cond_dim=D, num_control_dim=2, control_func=lambda u, P=P: jnp.concatenate([(u @ jnp.ones((2, 1))) * P["M1"].reshape(1, -1), u @ jnp.ones((2, D)) * P["b1"][None]], axis=1))),
 }
 
@@ -506,6 +512,16 @@ def check_program(ctx, name, f, P, has_data, gtol, facts):
         grad = {k: np.asarray(v) for k, v in grad.items()}
     if not g.ok:
         return
+    # the same gradient computed eagerly (op by op): XLA may simplify away a 0*inf that the eager backward pass hits
+    with ctx.guard("program.grad_eager", facts) as g:
+        ge = jax.grad(gfun)({k: P[k] for k in names})
+        for k in names:
+            gk = np.asarray(ge[k])
+            if not np.all(np.isfinite(gk)):
+                ctx.fail("program.grad_eager", "nonfinite", observed=gk, facts=dict(facts, param=k), msg="eager reverse-mode gradient is not finite")
+                break
+            if not ctx.close("program.grad_eager_vs_jit", gk, grad[k], scale=float(max(1.0, np.max(np.abs(grad[k])))), tol=1e-7, facts=dict(facts, param=k), symptom="grad_differs"):
+                break
     gj = jax.jit(gfun)
     base = {k: np.asarray(P[k], float) for k in names}
     h = 1e-4
